@@ -12,7 +12,7 @@ from .. import tu, gen
 PROPERTY = "C05"
 RULE = ("adjoint: generated X (C02 generators) and algebra a (regime table incl. 0, tiny, large norm), both dtypes, "
         "broadcastable batch shapes: Adj(X,a) == Ad(M(X)) a and AdjT(X,a) == Ad(M(X)^-1) a with Ad built from the matrix "
-        "Lie algebra (hat(Ad a) = M hat(a) M^-1), tolerance 32 eps |Ad| |a|; plus the defining identities X@Exp(a) == "
+        "Lie algebra (hat(Ad a) = M hat(a) M^-1), tolerance 128 eps rowmax|Ad| |a|_1; plus the defining identities X@Exp(a) == "
         "Exp(Adj(X,a))@X and Exp(a)@X == X@Exp(AdjT(X,a)) as matrices.  retract: Retr(X,a), X+a, X.add(a), pp.add, add_ "
         "(tensor or LieTensor increment, manifold / embedding / longer last dimension with junk in the extra slots, alpha) "
         "all equal reference-Exp(a) * M(X) (C01 tolerances) and each other; algebra + tensor is vector addition on the "
@@ -125,7 +125,7 @@ class Adjoint(Sub):
             for nm, y, A in (("Adj", y1n[i], Ad), ("AdjT", y2n[i], Adi)):
                 want = A @ As[i]
                 # row-wise normwise bound: entries of Ad that vanish by cancellation still carry eps*rowmax error
-                tolv = 32 * eps * np.abs(A).max(axis=1) * float(np.abs(As[i]).sum()) + 1e-300
+                tolv = 128 * eps * np.abs(A).max(axis=1) * float(np.abs(As[i]).sum()) + 1e-300
                 errv = np.abs(y - want)
                 err, tol = float(errv.max()), float(tolv[int(np.argmax(errv / tolv))])
                 rec.notes["adj"] = max(rec.notes.get("adj", 0), float((errv / tolv).max()))
